@@ -483,6 +483,13 @@ def require_cases(lay, maxseg):
                 yield dict(probe, S=S)
             for S in explicit_strings(lay, roots, ['.lua', '/init.lua']):
                 yield dict(probe, S=S)
+                if S.startswith('{TMP}'):
+                    # the load path is a ';'-separated list: a require string carrying its own ';' must not be
+                    # able to add entries to it
+                    yield dict(probe, S='nolib;' + S)
+                    yield dict(probe, S='ok;' + S)
+            for S in ('x;..', 'ok;..', ';', 'a;b', ';/', 'ok;lib', 'nolib;lib/ok', ';ok', 'ok;'):
+                yield dict(probe, S=S)
 
 
 def _run_space(ctx, gen, maxseg):
